@@ -685,7 +685,22 @@ def string_fragment(report, uri_consts, shape_consts):
             ("shexer/io/shape_map/label/shape_map_label_parser.py", 'ShapeMapLabelParser', '_parse_prefixed_label', 'label_parse_prefixed_label',
              {'self._namespaces_prefix_dict': 'strdict', 'raw_label': 'str'}, 'str'),
             ("shexer/io/shape_map/label/shape_map_label_parser.py", 'ShapeMapLabelParser', 'parse_shape_map_label', 'parse_shape_map_label',
-             {'self._namespaces_prefix_dict': 'strdict', 'raw_label': 'str'}, 'str')]
+             {'self._namespaces_prefix_dict': 'strdict', 'raw_label': 'str'}, 'str'),
+            # the N-Triples line tokenizer: index-based scans with `while` loops (fuel), callees first
+            ("shexer/io/graph/yielder/nt_triples_yielder.py", 'NtTriplesYielder', '_look_for_index_of_closing_quotes', 'nt_look_for_index_of_closing_quotes',
+             {'target_str': 'str', 'first_index': 'int'}, 'int'),
+            ("shexer/io/graph/yielder/nt_triples_yielder.py", 'NtTriplesYielder', '_look_for_last_index_before_blank', 'nt_look_for_last_index_before_blank',
+             {'target_str': 'str', 'first_index': 'int'}, 'int'),
+            ("shexer/io/graph/yielder/nt_triples_yielder.py", 'NtTriplesYielder', '_look_for_last_index_of_uri_token', 'nt_look_for_last_index_of_uri_token',
+             {'target_str': 'str', 'first_index': 'int'}, 'int'),
+            ("shexer/io/graph/yielder/nt_triples_yielder.py", 'NtTriplesYielder', '_look_for_last_index_of_bnode_token', 'nt_look_for_last_index_of_bnode_token',
+             {'target_str': 'str', 'first_index': 'int'}, 'int'),
+            ("shexer/io/graph/yielder/nt_triples_yielder.py", 'NtTriplesYielder', '_look_for_last_index_of_unlabelled_number_token',
+             'nt_look_for_last_index_of_unlabelled_number_token', {'target_str': 'str', 'first_index': 'int'}, 'int'),
+            ("shexer/io/graph/yielder/nt_triples_yielder.py", 'NtTriplesYielder', '_look_for_last_index_of_literal_token', 'nt_look_for_last_index_of_literal_token',
+             {'target_str': 'str', 'first_index': 'int'}, 'int'),
+            ("shexer/io/graph/yielder/nt_triples_yielder.py", 'NtTriplesYielder', '_look_for_tokens', 'nt_look_for_tokens',
+             {'str_line': 'str'}, 'strlist')]
     funcs = {}
     for rel, cls, pyname, lname, types, ret in jobs:
         try:
@@ -711,13 +726,13 @@ def string_fragment(report, uri_consts, shape_consts):
             plain = lambda t: t in ('str', 'bool', 'int', 'strdict', 'optstr')
             if ok_tr and cls is not None and ret in ('str', 'bool', 'int', 'optstr') and "(resolve :" not in out[-1]:
                 funcs.setdefault((rel, cls), {})['self.' + pyname] = ('func', lname, [(a.arg, types[a.arg]) for a in fn.args.args if a.arg != 'self'], ret, {},
-                                                                     [k for k in types if k.startswith('self.')])
+                                                                     [k for k in types if k.startswith('self.')], "(fuel : Nat)" in out[-1])
             if ok_tr and cls is None and ret in ('str', 'bool', 'int', 'optstr') \
                     and "(resolve :" not in out[-1] and all(plain(t) for t in types.values()):
                 nd = len(fn.args.defaults)
                 dflt = {a.arg: d for a, d in zip(fn.args.args[len(fn.args.args) - nd:], fn.args.defaults)
                         if isinstance(d, ast.Constant) and isinstance(d.value, (bool, str))}
-                entry = ('func', lname, [(a.arg, types[a.arg]) for a in fn.args.args], ret, dflt, [])
+                entry = ('func', lname, [(a.arg, types[a.arg]) for a in fn.args.args], ret, dflt, [], "(fuel : Nat)" in out[-1])
                 funcs.setdefault(rel, {})[pyname] = entry
                 funcs.setdefault('*', {})[pyname] = entry
         except (Untranslatable, OSError, SyntaxError) as e:
@@ -746,12 +761,16 @@ def string_fragment(report, uri_consts, shape_consts):
                 args.append("rest")
             elif t == 'strdict':
                 args.append("(pairs rest)")
-        call = "%s %s%s" % (lname, "resolve " if "(resolve :" in header else "", " ".join(args))
-        arms.append('  | "%s", %s => some (%s)' % (lname, pat, call if ret == 'optstr' else "(%s).map fun b => some (if b then ['1'] else ['0'])" % call if ret == 'bool' else "(%s).map some" % call))
+            elif t == 'int':
+                args.append("num")
+        call = "%s %s%s%s" % (lname, "resolve " if "(resolve :" in header else "", "fuel " if "(fuel : Nat)" in header else "", " ".join(args))
+        arms.append('  | "%s", %s => some (%s)' % (lname, pat, call if ret == 'optstr' else "(%s).map fun b => some (if b then ['1'] else ['0'])" % call if ret == 'bool'
+                                                  else "(%s).map fun i => some (toString i).toList" % call if ret == 'int'
+                                                  else "(%s).map fun l => some (l.flatMap fun t => t ++ [Char.ofNat 1])" % call if ret == 'strlist' else "(%s).map some" % call))
     out.append("def pairs : List (List Char) → List (List Char × List Char)\n  | k :: v :: rest => (k, v) :: pairs rest\n  | _ => []\n")
     out.append("/-- dispatch by name for `strdriver` (the translator's correspondence check) -/")
     out.append("def dispatch (resolve : List Char → List Char → List Char) (name : String) (strs : List (List Char)) (flag : Bool)")
-    out.append("    (opt : Option (List Char)) : Option (Except PyExc (Option (List Char))) :=")
+    out.append("    (opt : Option (List Char)) (num : Int := 0) (fuel : Nat := 0) : Option (Except PyExc (Option (List Char))) :=")
     out.append("  match name, strs with")
     out += arms
     out.append("  | _, _ => none\n")
